@@ -8,6 +8,7 @@ import (
 	"math/rand"
 	"os"
 	"path/filepath"
+	"sort"
 	"strconv"
 	"strings"
 
@@ -163,3 +164,5 @@ func min(a, b int) int {
 	}
 	return b
 }
+
+func sortStrings(s []string) { sort.Strings(s) }
